@@ -127,7 +127,10 @@ let run_fedq (input : Sexp.t) (impl : Sexp.t) : Verdict.t =
     nontrivial = napplied >= 3 && faults + lost > 0;
     cls = Printf.sprintf "faults%s_lost%s_dup%s%s" (if faults = 0 then "0" else "some") (if lost = 0 then "0" else "some")
         (if ndup = 0 then "0" else "some") (if big then "_burst" else "");
-    model = Sexp.L mouts }
+    model = Sexp.L mouts;
+    why = (if oracle then ""
+           else if not (c16_safety_ok steps iobs) then "applied_sequence_is_not_a_duplicate-free_in-order_prefix_of_the_emitted_sequence"
+           else "after_the_fault-free_suffix:_stream_not_idle,_or_events_not_applied,_or_view<>local_subscription_set") }
 
 
 (* ---------------------------------------------------------------- fedr *)
@@ -194,20 +197,13 @@ let run_fedr (input : Sexp.t) (impl : Sexp.t) : Verdict.t =
   let pub_ok = List.length pobs = List.length pubs && List.for_all2 (fun m o -> c17_pub_ok case m o) pubs pobs in
   let recv_ok = c17_recv_ok [] recv robs in
   let oracle = pub_ok && recv_ok in
-  (* every failing publish / receive must be in a known-finding class *)
+  (* every failing publish must be in the known-finding class; the receiving side has none *)
   let kf =
-    if oracle then "-"
+    if oracle || List.length pobs <> List.length pubs || not recv_ok then "-"
     else begin
       let bad_pubs = List.filter (fun (m, o) -> not (c17_pub_ok case m o)) (List.combine pubs pobs) in
       let pubs_known = List.for_all (fun (m, o) -> kf_shared_span case m && (m.m_retained || plain_ok case m o)) bad_pubs in
-      let recv_known = recv_ok || List.exists kf_retained_empty (List.map msg_event_form recv) in
-      if List.length pobs <> List.length pubs then "-"
-      else if pubs_known && recv_known then
-        (match bad_pubs <> [], not recv_ok with
-         | true, true -> "kf_shared_span+kf_retained_empty"
-         | true, false -> "kf_shared_span"
-         | false, _ -> "kf_retained_empty")
-      else "-"
+      if bad_pubs <> [] && pubs_known then "kf_shared_span" else "-"
     end in
   let nsent = List.length (List.concat_map (fun o -> o.po_sent) pobs) in
   let any_shared = List.exists (fun (_, l) -> List.exists (fun ((_, g), _) -> g <> []) l) nodes in
@@ -217,4 +213,11 @@ let run_fedr (input : Sexp.t) (impl : Sexp.t) : Verdict.t =
     nontrivial = nsent > 0 && List.length pubs >= 1;
     cls = Printf.sprintf "peers%d_sh%s_span%s_ret%s_recv%d" (List.length peers) (if any_shared then "1" else "0")
         (if span then "1" else "0") (if any_ret then "1" else "0") (List.length recv);
-    model }
+    model;
+    why = (if oracle then ""
+           else if List.length pobs <> List.length pubs then "number_of_publish_observations_differs"
+           else if not pub_ok then
+             (let bad = List.filter (fun (m, o) -> not (c17_pub_ok case m o)) (List.combine pubs pobs) in
+              if List.exists (fun (m, o) -> m.m_retained || not (plain_ok case m o)) bad then "peer_set_or_local_delivery_wrong_for_a_publish"
+              else "a_share_group_spanning_nodes_is_not_served_exactly_once")
+           else "receiver:_published_message_or_retained_store_differs_from_the_broker_rule") }
